@@ -60,6 +60,237 @@ fn toks_in(s: &str) -> Vec<(String, String)> {
         .collect()
 }
 
+
+struct EnvSpec {
+    vars: Vec<(String, String)>,
+    exported: Vec<(String, String)>,
+    aliases: Vec<(String, String)>,
+    status: i32,
+    cmds: Vec<(String, String)>,
+}
+
+fn pairs_in(s: &str) -> Vec<(String, String)> {
+    if s == "[]" || s.is_empty() {
+        return vec![];
+    }
+    s.split(',')
+        .map(|p| {
+            let mut it = p.split(':');
+            (unhex(it.next().unwrap()), unhex(it.next().unwrap()))
+        })
+        .collect()
+}
+
+fn env_in(s: &str) -> EnvSpec {
+    let mut e = EnvSpec { vars: vec![], exported: vec![], aliases: vec![], status: 0, cmds: vec![] };
+    for sec in s.split(';') {
+        if sec.len() < 2 {
+            continue;
+        }
+        let (k, v) = sec.split_at(2);
+        match k {
+            "v=" => e.vars = pairs_in(v),
+            "x=" => e.exported = pairs_in(v),
+            "a=" => e.aliases = pairs_in(v),
+            "s=" => e.status = v.parse().unwrap_or(0),
+            "c=" => e.cmds = pairs_in(v),
+            _ => {}
+        }
+    }
+    e
+}
+
+/// build a Shell for the case and set the process environment; returns the names to unset afterwards
+fn make_shell(e: &EnvSpec) -> (vh::VShell, Vec<String>) {
+    let mut names = vec![];
+    for (k, v) in &e.exported {
+        std::env::set_var(k, v);
+        names.push(k.clone());
+    }
+    let mut sh = vh::new_shell();
+    for (k, v) in &e.vars {
+        sh.envs.insert(k.clone(), v.clone());
+    }
+    for (k, v) in &e.aliases {
+        sh.aliases.insert(k.clone(), v.clone());
+    }
+    sh.previous_status = e.status;
+    let mut script = HashMap::new();
+    for (k, v) in &e.cmds {
+        script.insert(k.clone(), v.clone());
+    }
+    vh::set_pipeline_script(Some(script));
+    (sh, names)
+}
+
+fn drop_env(names: Vec<String>) {
+    for n in names {
+        std::env::remove_var(n);
+    }
+    vh::set_pipeline_script(None);
+}
+
+fn redirs_out(r: &[(String, String, String)]) -> String {
+    if r.is_empty() {
+        "[]".to_string()
+    } else {
+        r.iter().map(|(a, b, c)| format!("{}:{}:{}", hex(a), hex(b), hex(c))).collect::<Vec<_>>().join(",")
+    }
+}
+
+fn cmd_out(c: &vh::VCommand) -> String {
+    let from = match &c.redirect_from {
+        Some((a, b)) => format!("{}:{}", hex(a), hex(b)),
+        None => "none".to_string(),
+    };
+    format!("{}/{}/{}", toks_out(&c.tokens), redirs_out(&c.redirects_to), from)
+}
+
+fn pairs_out(v: &[(String, String)]) -> String {
+    if v.is_empty() {
+        "[]".to_string()
+    } else {
+        v.iter().map(|(a, b)| format!("{}:{}", hex(a), hex(b))).collect::<Vec<_>>().join(",")
+    }
+}
+
+fn with_env<F: FnOnce(&mut vh::VShell) -> String>(spec: &str, f: F) -> String {
+    let e = env_in(spec);
+    let (mut sh, names) = make_shell(&e);
+    let r = f(&mut sh);
+    drop_env(names);
+    r
+}
+
+fn pass<F: FnOnce(&mut vh::VShell, &mut Vec<(String, String)>)>(spec: &str, toks: &str, f: F) -> String {
+    with_env(spec, |sh| {
+        let mut t = toks_in(toks);
+        f(sh, &mut t);
+        toks_out(&t)
+    })
+}
+
+/// streams that may hang or abort are run in a forked child under a watchdog
+fn isolated(stream: &str) -> bool {
+    matches!(stream, "xenv" | "xall" | "plan" | "subst" | "xrange" | "head")
+}
+
+fn run_isolated(stream: &str, f: &[&str], timeout_ms: i32) -> String {
+    unsafe {
+        let mut fds = [0i32; 2];
+        if libc::pipe(fds.as_mut_ptr()) != 0 {
+            return "HARNESS-ERROR pipe".to_string();
+        }
+        let pid = libc::fork();
+        if pid == 0 {
+            libc::close(fds[0]);
+            let r = panic::catch_unwind(|| run_case(stream, f));
+            let s = match r {
+                Ok(s) => mask_pid(f, s),
+                Err(e) => panic_text(e),
+            };
+            let b = s.as_bytes();
+            let mut off = 0;
+            while off < b.len() {
+                let n = libc::write(fds[1], b[off..].as_ptr() as *const libc::c_void, b.len() - off);
+                if n <= 0 {
+                    break;
+                }
+                off += n as usize;
+            }
+            libc::_exit(0);
+        }
+        libc::close(fds[1]);
+        let mut out: Vec<u8> = Vec::new();
+        let mut buf = [0u8; 65536];
+        let start = std::time::Instant::now();
+        let mut result: Option<String> = None;
+        loop {
+            let left = timeout_ms as i128 - start.elapsed().as_millis() as i128;
+            if left <= 0 {
+                result = Some("HANG".to_string());
+                break;
+            }
+            let mut pfd = libc::pollfd { fd: fds[0], events: libc::POLLIN, revents: 0 };
+            let pr = libc::poll(&mut pfd, 1, left as i32);
+            if pr == 0 {
+                result = Some("HANG".to_string());
+                break;
+            }
+            let n = libc::read(fds[0], buf.as_mut_ptr() as *mut libc::c_void, buf.len());
+            if n <= 0 {
+                break;
+            }
+            out.extend_from_slice(&buf[..n as usize]);
+        }
+        libc::close(fds[0]);
+        if result.is_some() {
+            libc::kill(pid, libc::SIGKILL);
+        }
+        let mut st = 0;
+        libc::waitpid(pid, &mut st, 0);
+        if let Some(r) = result {
+            return r;
+        }
+        if out.is_empty() {
+            return format!("CRASH status={}", st);
+        }
+        String::from_utf8_lossy(&out).to_string()
+    }
+}
+
+/// `$$` expands to the pid of whichever process runs the case; rewrite it to the model's placeholder.
+/// Only applied when the case text mentions `$$` / `${$}`.
+fn mask_pid(fields: &[&str], obs: String) -> String {
+    let mentions = fields.iter().map(|f| f.matches("24").count()).sum::<usize>() >= 2;
+    if !mentions {
+        return obs;
+    }
+    let pid = unsafe { libc::getpid() };
+    let ph = hex(&format!("{}", pid));
+    let rep = hex("4194305");
+    let b: Vec<char> = obs.chars().collect();
+    let mut out = String::new();
+    let mut i = 0;
+    while i < b.len() {
+        if b[i].is_ascii_hexdigit() && !b[i].is_ascii_uppercase() {
+            let mut j = i;
+            while j < b.len() && b[j].is_ascii_hexdigit() && !b[j].is_ascii_uppercase() {
+                j += 1;
+            }
+            let run: String = b[i..j].iter().collect();
+            let mut k = 0;
+            while k < run.len() {
+                if run[k..].starts_with(&ph) {
+                    out.push_str(&rep);
+                    k += ph.len();
+                } else {
+                    let e = std::cmp::min(k + 2, run.len());
+                    out.push_str(&run[k..e]);
+                    k = e;
+                }
+            }
+            i = j;
+        } else {
+            out.push(b[i]);
+            i += 1;
+        }
+    }
+    out
+}
+
+fn panic_text(e: Box<dyn std::any::Any + Send>) -> String {
+    let msg = if let Some(s) = e.downcast_ref::<String>() {
+        s.clone()
+    } else if let Some(s) = e.downcast_ref::<&str>() {
+        s.to_string()
+    } else {
+        "?".to_string()
+    };
+    let _ = msg;
+    "PANIC".to_string()
+}
+
 fn run_case(stream: &str, f: &[&str]) -> String {
     match stream {
         "l2c" => hex_list(&vh::line_to_cmds(&unhex(f[0]))),
@@ -106,6 +337,58 @@ fn run_case(stream: &str, f: &[&str]) -> String {
             };
             format!("{}|{}", tr, last)
         }
+
+        "xalias" => pass(f[0], f[1], |sh, t| vh::expand_alias(sh, t)),
+        "xhome" => pass(f[0], f[1], |_sh, t| vh::expand_home(t)),
+        "xenv" => pass(f[0], f[1], |sh, t| vh::expand_env(sh, t)),
+        "xbrace" => pass("-", f[0], |_sh, t| vh::expand_brace(t)),
+        "xrange" => pass("-", f[0], |_sh, t| vh::expand_brace_range(t)),
+        "xall" => pass(f[0], f[1], |sh, t| vh::do_expansion(sh, t)),
+        "subst" => pass(f[0], f[1], |sh, t| vh::do_command_substitution(sh, t)),
+        "envin" => (if vh::env_in_token(&unhex(f[0])) { "1" } else { "0" }).to_string(),
+        "needbrace" => (if vh::need_expand_brace(&unhex(f[0])) { "1" } else { "0" }).to_string(),
+        "shoulddollar" => (if vh::should_do_dollar(&unhex(f[0])) { "1" } else { "0" }).to_string(),
+        "oneenv" => with_env(f[0], |sh| hex(&vh::expand_envs_in_token(sh, &unhex(f[1])))),
+        "pipes" => {
+            let v = vh::split_tokens_by_pipes(&toks_in(f[0]));
+            if v.is_empty() { "[]".to_string() } else { v.iter().map(|c| toks_out(c)).collect::<Vec<_>>().join(";") }
+        }
+        "drain" => {
+            let mut t = toks_in(f[0]);
+            let m = vh::drain_env_tokens(&mut t);
+            let mut e: Vec<(String, String)> = m.into_iter().collect();
+            e.sort();
+            format!("{}|{}", pairs_out(&e), toks_out(&t))
+        }
+        "ftok" => match vh::from_tokens(toks_in(f[0])) {
+            Ok(c) => format!("ok|{}", cmd_out(&c)),
+            Err(e) => format!("err|{}", hex(&e)),
+        },
+        "plan" => with_env(f[0], |sh| match vh::from_line(&unhex(f[1]), sh) {
+            Ok(p) => {
+                let cmds = if p.commands.is_empty() { "[]".to_string() } else { p.commands.iter().map(cmd_out).collect::<Vec<_>>().join(";") };
+                format!("ok|{}|{}|{}", if p.background { 1 } else { 0 }, pairs_out(&p.envs), cmds)
+            }
+            Err(e) => format!("err|{}", hex(&e)),
+        }),
+        "head" => with_env(f[0], |sh| {
+            let line = unhex(f[1]);
+            match vh::run_pipeline_captured(sh, &line) {
+                Ok(cr) => {
+                    let log = vh::take_pipeline_log();
+                    let float = vh::is_arithmetic(&line) && line.contains('.') && cr.status == 0;
+                    format!("st={}|out={}|err={}|log={}", cr.status, if float { "F".to_string() } else { hex(&cr.stdout) }, hex(&cr.stderr), hex_list(&log))
+                }
+                Err(e) => format!("err|{}", hex(&e)),
+            }
+        }),
+        "calc" => {
+            let line = unhex(f[0]);
+            match vh::run_calculator(&line) {
+                Ok(s) => format!("ok|{}", if line.contains('.') { "F".to_string() } else { hex(&s) }),
+                Err(_) => "err".to_string(),
+            }
+        }
         _ => format!("UNKNOWN-STREAM {}", stream),
     }
 }
@@ -115,6 +398,12 @@ fn main() {
     let inp = BufReader::new(File::open(&args[1]).expect("cases file"));
     let mut out = BufWriter::new(File::create(&args[2]).expect("out file"));
     panic::set_hook(Box::new(|_| {}));
+    // deterministic process environment: every variable a case needs is set by the case itself
+    let keys: Vec<String> = std::env::vars().map(|(k, _)| k).collect();
+    let progress = std::env::var("CVH_PROGRESS").ok();
+    for k in keys {
+        std::env::remove_var(k);
+    }
     for line in inp.lines() {
         let line = line.unwrap();
         if line.is_empty() {
@@ -125,21 +414,15 @@ fn main() {
         let stream = parts[1];
         let fields = parts[2..].to_vec();
         // progress marker for hang detection: the id of the case being run
-        if let Ok(p) = std::env::var("CVH_PROGRESS") {
-            let _ = std::fs::write(&p, id);
+        if let Some(p) = &progress {
+            let _ = std::fs::write(p, id);
         }
-        let r = panic::catch_unwind(|| run_case(stream, &fields));
-        let obs = match r {
-            Ok(s) => s,
-            Err(e) => {
-                let msg = if let Some(s) = e.downcast_ref::<String>() {
-                    s.clone()
-                } else if let Some(s) = e.downcast_ref::<&str>() {
-                    s.to_string()
-                } else {
-                    "?".to_string()
-                };
-                format!("PANIC {}", msg.replace('\t', " ").replace('\n', " "))
+        let obs = if isolated(stream) {
+            run_isolated(stream, &fields, 3000)
+        } else {
+            match panic::catch_unwind(|| run_case(stream, &fields)) {
+                Ok(s) => mask_pid(&fields, s),
+                Err(e) => panic_text(e),
             }
         };
         writeln!(out, "{}\t{}", id, obs).unwrap();
